@@ -147,11 +147,60 @@ def gen_plan(j, rng):
             op["idle_after"] = rng.choice([30.0, 3700.0, 13 * 3600.0])
         ops.append(op)
     cfg["backpressure"] = rng.random() < 0.2
+    if rng.random() < 0.3:
+        # the clients learn a capability profile first; refresh then makes 1 + extra exchanges
+        custom = rng.random() < 0.5
+        recs = [[0x0210, "01" if custom else rng.choice(["05", "07", "06"])], [0x0214, "01"], [0x0215, "01"]]
+        extra = 0
+        if rng.random() < 0.5:
+            recs.append([0x0216, "02"])
+            extra += 1
+        if rng.random() < 0.5:
+            recs.append([0x021F, "02"])
+            extra += 1
+        if rng.random() < 0.4:
+            recs += [[0x0009, "01"], [0x000A, "01"]]
+            extra += 1
+        cfg["caps_pages"] = [[recs, None]]
+        cfg["learn_caps"] = True
+        NAMED = [20, 40, 60, 80, 100, 102] if recs[0][1] != "05" else [40, 60, 80, 102]
+        if recs[0][1] == "07":
+            NAMED = [40, 60, 80]
+        if recs[0][1] == "06":
+            NAMED = [20, 40, 60, 80, 102]
+
+        def fix_fan(st):
+            if not custom and "fan" in st:
+                st["fan"] = rng.choice(NAMED)
+            return st
+        fix_fan(cfg["state"])
+        for op in ops:
+            if op["op"] == "dev_change":
+                fix_fan(op["set"])
+            if op["op"] == "apply" and not custom and "fan_speed" in op.get("set", {}):
+                op["set"]["fan_speed"] = rng.choice(NAMED)
+            if op["op"] in ("refresh", "toggle", "refresh2") and extra:
+                # all but the last exchange of a refresh are followed at once by the next one
+                last = op.get("net", [{}])[-1] if op.get("net") else {}
+                n = (2 if op["op"] == "toggle" else 1) + extra
+                if op["op"] == "refresh2":
+                    op["net"] = [gen_net(rng, cfg["version"], inner=True) for _ in range(2 * (1 + extra))]
+                    for d in op["net"]:
+                        d.pop("lat", None)
+                else:
+                    op["net"] = [gen_net(rng, cfg["version"], inner=True) for _ in range(n - 1)] + [last]
     return {"config": cfg, "ops": ops}
 
 
+def _plain(p):
+    """The known-finding sub-workloads run exactly the recorded shape: no learned profile, no back pressure."""
+    for k in ("learn_caps", "caps_pages", "backpressure"):
+        p["config"].pop(k, None)
+    return p
+
+
 def gen_known_v2_stream(j, rng):
-    p = gen_plan(j, rng)
+    p = _plain(gen_plan(j, rng))
     p["config"]["version"] = 2
     p["config"]["clients"] = 1
     shape = rng.choice(["split", "coalesce"])
@@ -165,7 +214,7 @@ def gen_known_v2_stream(j, rng):
 
 
 def gen_known_first_packet(j, rng):
-    p = gen_plan(j, rng)
+    p = _plain(gen_plan(j, rng))
     p["config"]["clients"] = 1
     v = p["config"]["version"]
     net = [{"pre": [rng.choice(["unsol_b5", "unknown_id"])], "pre_sep": True}]
@@ -226,6 +275,7 @@ def run(plan):
 
     async def main(w):
         clients = s.make_clients()
+        prof = plan["config"].get("learn_caps")
         if plan["config"].get("backpressure"):
             w.net.backpressure = 1 / 4096          # writes are buffered by reference and flushed a moment later
             w.fire("backpressure")
@@ -235,6 +285,15 @@ def run(plan):
                 if o.kind != "ok":
                     fail(f"authenticate raised {o.exc_type}", repr(o.exc))
                     return
+        if prof is not None:
+            # every instance first learns the device's capabilities (which changes how refresh and the state
+            # decoder behave: extra queries, named-only fan speeds ...)
+            for i in range(len(clients)):
+                o = await s.do({"op": "caps", "c": i})
+                if o.kind != "ok":
+                    fail(f"get_capabilities raised {o.exc_type}", repr(o.exc))
+                    return
+            w.fire("capabilities_learned")
         for op in plan["ops"]:
             if not res.ok:
                 return
